@@ -234,8 +234,11 @@ def configs(tier):
         else [(1, 1), (2, 1), (2, 2)]
     for rw in pairs:
         n = (20, 20) if thorough else ((4, 4) if max(rw) == 1 else (3, 3))
+        # (window product >= 4 with 6 messages the other way is 0.5-2 M states
+        # per configuration, two hours in total: 2 the other way there)
         out.append(dict(rw=rw, n=n if max(rw) == 1 or not thorough
-                        else (18, 6), miu=129, size=129,
+                        else ((18, 6) if rw[0] * rw[1] < 4 else (18, 2)),
+                        miu=129, size=129,
                         agf=True, acks=False, busy=False))
     # messages of different sizes (a large I PDU that does not fit into the
     # aggregate followed by a small one), windows >= 2, aggregation on
